@@ -17,6 +17,16 @@ neighbourhood operators as documented, iteration, meaning of the configured form
     methods behind them, get_value_c on a small database, and the helper generators
     segmentation_catalogs / generic_alt_specific_catalogs (whose documented shape is written
     in vb/catenv.py independently of the library).
+(C) three further parts of the quantified space, each decided by the same specification:
+    (a) ConfSpec: ONE Configuration object whose selections are assigned after creation -- every
+        history Create / ReadId / Assign of length 4 over a small set of selections, with the
+        identifier, pairs and equalities expected after each step;
+    (b) BehindSpec: select A, move ONE controller individually (select_expression, set_controller,
+        set_index, set_name, a second CentralController, modify_controller), then select A again
+        or apply an operator GIVEN A -- state and value compared after every step;
+    (c) catalogs sharing one controller whose member names are listed in another order: the
+        specification states the documented rule (refused) and, for an accepting
+        implementation, the selection BY NAME.
 """
 
 from __future__ import annotations
@@ -33,9 +43,33 @@ from vb.catenv import MODEL_INVARIANTS, dec
 PID = 'C16'
 
 
-def tlc_jobs(structs, quick, seed):
+BEHIND_INVARIANTS = ['EmitInv', 'BehindInv', 'Valid', 'Sync', 'SyncPos', 'ValueAgrees']
+CONF_INVARIANTS = ['CEmitInv', 'CIdsUnique', 'CRoundTrip', 'CCurrent']
+CONF_LEN = 4
+
+
+def behind_plan(structs, quick):
+    """(structure, largest operator step) of the runs of BehindSpec"""
+    if quick:
+        return [(st, 1) for st in structs if st.label in ('two', 'shared')]
+    return [(st, 2 if st.nconf <= 8 else 1) for st in structs if st.nconf <= 24]
+
+
+def tlc_jobs(structs, quick, seed, order_structs=(), conf_struct=None, csels=None):
     """(name, struct, kind, kwargs for tlc.run)"""
     jobs = []
+    for st in order_structs:
+        jobs.append((f'{st.label}: full state graph, member names {"in another order" if "misordered" in st.features else "in the same order"}',
+                     st, 'order', dict(cfg=st.cfg(MODEL_INVARIANTS + ['TableInv', 'MetaInv'], record=False, max_iter=8),
+                                       mods={'CatalogGen': st.module()}, kw={})))
+    for st, ms in behind_plan(structs, quick):
+        jobs.append((f'{st.label}: select A, move one controller individually, re-select A / operator given A (steps 1..{ms})', st, 'behind',
+                     dict(cfg=st.cfg(BEHIND_INVARIANTS, record=True, max_len=3, max_step=ms, spec='BehindSpec'),
+                          mods={'CatalogGen': st.module()}, kw={})))
+    if conf_struct is not None:
+        jobs.append((f'{conf_struct.label}: one Configuration object, every history of {CONF_LEN} steps over {len(csels)} selections', conf_struct,
+                     'confobj', dict(cfg=conf_struct.cfg(CONF_INVARIANTS, record=False, spec='ConfSpec', conf_len=CONF_LEN),
+                                     mods={'CatalogGen': conf_struct.module(csels=csels)}, kw={})))
     for st in structs:
         mod = {'CatalogGen': st.module()}
         jobs.append((f'{st.label}: full state graph, {st.nconf} configurations', st, 'model',
@@ -57,7 +91,7 @@ def tlc_jobs(structs, quick, seed):
 
 def run_job(job):
     name, st, kind, a = job
-    workers = 1 if kind == 'walks' or st.nconf <= 6 else 3
+    workers = 1 if kind in ('walks', 'order', 'confobj') or st.nconf <= 6 else 3
     return tlc.run('CatalogGen', a['cfg'], extra_modules=a['mods'], workers=workers, timeout=1500, heap='2g', **a['kw'])
 
 
@@ -65,6 +99,9 @@ def body(chk: check.Check):
     rt.setup(chk.seed)
     quick = chk.tier == 'quick'
     structs = catenv.structures(chk.tier)
+    order_structs = catenv.order_structures(chk.tier)
+    conf_struct = structs[1]  # 'two': controller names sorted unlike their declaration
+    csels = catenv.selections(conf_struct, chk.tier)
     chk.rule = ('structures = catalog DAGs (1-3 controllers of sizes 1-4, shared, implicit, nested, below Elem/bioMultSum, helper '
                 'generated); per structure TLC prints every configuration and operator sequences (exhaustive short ones from every '
                 'configuration + random walks); distinct = distinct (structure, operator sequence) and (structure, configuration)')
@@ -73,13 +110,16 @@ def body(chk: check.Check):
     import time
     tm = {}
     t_ = time.time()
-    jobs = tlc_jobs(structs, quick, chk.seed)
+    jobs = tlc_jobs(structs, quick, chk.seed, order_structs, conf_struct, csels)
     jobs.sort(key=lambda j: -j[1].nconf)  # the big ones first
     with ThreadPoolExecutor(max_workers=10) as pool:
         results = list(pool.map(run_job, jobs))
     tm['tlc'] = round(time.time() - t_, 1)
+    import resource
+    _ru = resource.getrusage(resource.RUSAGE_CHILDREN)
+    tm['tlc_cpu'] = round(_ru.ru_utime + _ru.ru_stime, 1)
     t_ = time.time()
-    tables, paths = {}, {}
+    tables, paths, bpaths, cpaths = {}, {}, {}, {}
     mutants = []
     for (name, st, kind, a), res in zip(jobs, results):
         if kind == 'mutant':
@@ -88,10 +128,19 @@ def body(chk: check.Check):
             mutants.append((name, res.violated == a['inv'], f'violated={res.violated}'))
             continue
         chk.add_tlc(name, res)
-        if kind == 'model':
+        if kind in ('model', 'order'):
             tables[st.label] = catreplay.Table(st, res.emitted)
             if len(tables[st.label].rows) != st.nconf:
                 raise tlc.MachineryError(f'{st.label}: {len(tables[st.label].rows)} configuration rows printed, {st.nconf} expected')
+        elif kind == 'behind':
+            seen = bpaths.setdefault(st.label, {})
+            for p in res.emitted:
+                if p.get('kind') == 'path' and len(p['steps']) == 3:
+                    seen.setdefault(catreplay.path_key(st.label, p), p)
+        elif kind == 'confobj':
+            for p in res.emitted:
+                if p.get('kind') == 'confobj':
+                    cpaths.setdefault(catreplay.confobj_key(st.label, p), p)
         else:
             seen = paths.setdefault(st.label, {})
             for p in res.emitted:
@@ -159,6 +208,86 @@ def body(chk: check.Check):
         dict(op=s['op'], a=s['a'], b=s['b'], dir=s['dir'], step=s['step'], expected=tables[structs[2].label].id_of[tuple(s['cfg'])])
         for s in some['steps']]))
 
+    # ------------------------------------------------------------------ (C.b) controllers moved behind the central controller's back
+    work = []
+    for st in structs:
+        plist = list(bpaths.get(st.label, {}).values())
+        for base in range(0, len(plist), 250):
+            # no end-of-path value (0); the value is compared after the individual move and after the last step
+            work.append((st, tables[st.label], plist[base:base + 250], base, 0, None, 1))
+    pres = par.pmap(catreplay.replay_paths, work, chunk=1, timeout=900)
+    behind_count = {}
+    for (st, tab, plist, base, *_), (status, val) in zip(work, pres):
+        if status != 'ok':
+            chk.violation(f'behind:{status}', dict(struct=st.label, error=val, first=plist[0]['steps'][:3]), match=dict(kind='exception', struct=st.label))
+            continue
+        chk.replayed += val['paths']
+        chk.evaluations += val['n']
+        for p in plist:
+            chk.distinct.add(catreplay.path_key(st.label, p))
+            k = f"{p['steps'][1]['op']}/{p['steps'][1]['via'] or '-'} then {p['steps'][2]['op']}"
+            behind_count[k] = behind_count.get(k, 0) + 1
+        for m in val['mismatches']:
+            chk.violation('behind:' + m['key'], dict(struct=st.label, **m['detail']), match=dict(m['match'], history='behind'))
+    if not bpaths or not all(bpaths.values()):
+        raise tlc.MachineryError('BehindSpec printed no history')
+    chk.extra['behind_the_back_histories'] = dict(per_structure={k: len(v) for k, v in bpaths.items()}, by_shape=behind_count)
+    tm['behind'] = round(time.time() - t_, 1)
+    t_ = time.time()
+
+    # ------------------------------------------------------------------ (C.a) one Configuration object assigned after creation
+    clist = list(cpaths.values())
+    if not clist:
+        raise tlc.MachineryError('ConfSpec printed no history')
+    size = max(50, len(clist) // 32 + 1)
+    work = [(conf_struct, csels, clist[base:base + size], base, None) for base in range(0, len(clist), size)]
+    cres = par.pmap(catreplay.replay_confobj, work, chunk=1, timeout=600)
+    for (st, _, plist, base, _), (status, val) in zip(work, cres):
+        if status != 'ok':
+            chk.violation(f'confobj:{status}', dict(struct=st.label, error=val, first=plist[0]['steps'][:2]), match=dict(kind='exception', struct=st.label))
+            continue
+        chk.replayed += val['paths']
+        chk.evaluations += val['n']
+        for p in plist:
+            chk.distinct.add(catreplay.confobj_key(st.label, p))
+        for m in val['mismatches']:
+            chk.violation(m['key'], dict(struct=st.label, **m['detail']), match=m['match'])
+    ops_seen = {}
+    for p in clist:
+        for s_ in p['steps']:
+            ops_seen[s_['op']] = ops_seen.get(s_['op'], 0) + 1
+    chk.extra['configuration_object_histories'] = dict(structure=conf_struct.label, selections=csels, length=CONF_LEN, histories=len(clist), steps=ops_seen)
+    ex_c = next((p for p in clist if [s_['op'] for s_ in p['steps']] == ['create', 'read', 'assign', 'read']
+                 and p['steps'][0]['sel'] != p['steps'][2]['sel']), clist[0])
+    chk.sample(dict(configuration_object_history=[dict(op=s_['op'], selections=s_['sel'], expected_id=dec(s_['id'])) for s_ in ex_c['steps']]))
+    tm['confobj'] = round(time.time() - t_, 1)
+    t_ = time.time()
+
+    # ------------------------------------------------------------------ (C.c) member names of a shared controller in another order
+    ores = par.pmap(catreplay.check_order, [(st, tables[st.label], None) for st in order_structs], chunk=1)
+    order_outcomes = {}
+    for st, (status, val) in zip(order_structs, ores):
+        chk.replayed += 1
+        chk.distinct.add((st.label, 'order'))
+        verdict = tables[st.label].meta['verdict']
+        if status != 'ok':
+            chk.violation(f'order:{status}', dict(struct=st.label, error=val), match=dict(kind='exception', struct=st.label))
+            continue
+        chk.evaluations += val['n']
+        order_outcomes[st.label] = dict(specification=verdict, library=val['outcome'], configurations_compared=val['configurations'],
+                                        misordered=[dec(c) for c in tables[st.label].meta['misordered']])
+        if val['outcome'] == 'accepted':
+            for cfg in tables[st.label].rows:
+                chk.distinct.add((st.label, cfg))
+        for m in val['mismatches']:
+            chk.violation(m['key'], dict(struct=st.label, **m['detail']), match=m['match'])
+    if not any(t['specification'] == 'refused' for t in order_outcomes.values()) or \
+            not any(t['specification'] == 'accepted' and t['configurations_compared'] for t in order_outcomes.values()):
+        raise tlc.MachineryError(f'member-order structures: a refused one and an accepted, compared one are needed: {order_outcomes}')
+    chk.extra['member_order_structures'] = order_outcomes
+    tm['order'] = round(time.time() - t_, 1)
+    t_ = time.time()
+
     # ------------------------------------------------------------------ negative controls
     st = structs[1]  # 'two'
     for name, detected, note in mutants:
@@ -199,6 +328,8 @@ def body(chk: check.Check):
                 status != 'ok' or any(m['key'].startswith('operator:') for m in val['mismatches']),
                 f'{status}: {len(val["mismatches"]) if status == "ok" else val}')
 
+    new_part_controls(chk, st, tab, tables, bpaths, conf_struct, csels, clist, order_structs)
+
     tm['controls'] = round(time.time() - t_, 1)
     chk.extra['phase_wall_s'] = tm
     chk.uncovered += ['structures with more than 3 controllers or more than 4 alternatives',
@@ -209,6 +340,111 @@ def body(chk: check.Check):
     chk.assumptions += ['random operator: each application is repeated with up to %d seeds; every outcome must lie in the set the '
                         'specification allows and the outcome the specification chose must be produced by some seed' % catreplay.SEVERAL_TRIES,
                         'values are exact integers (distinct per member), compared with ==']
+
+
+def _reported(status, val, prefix=''):
+    return status != 'ok' or any(m['key'].startswith(prefix) for m in val['mismatches'])
+
+
+def _note(status, val):
+    return f'{status}: {sorted({m["key"] for m in val["mismatches"]})[:6] if status == "ok" else val}'
+
+
+def new_part_controls(chk, st, tab, tables, bpaths, conf_struct, csels, clist, order_structs):
+    """One corrupted expectation per new part (it must be REPORTED, through the ordinary reporting path),
+    one mutated implementation per new part, and the reporting path itself."""
+    # ---- (a) the identifier expected at the last read replaced by the one before the assignment
+    hist = next(p for p in clist if [s_['op'] for s_ in p['steps']] == ['create', 'read', 'assign', 'read']
+                and p['steps'][0]['id'] != p['steps'][2]['id'])
+    mut = copy.deepcopy(hist)
+    mut['steps'][3]['id'] = mut['steps'][0]['id']
+    status, val = rt.forked(catreplay.replay_confobj, (conf_struct, csels, [mut], 0, None))
+    chk.control('(a) identifier expected after Assign replaced by the identifier before it', _reported(status, val, 'confobj:'), _note(status, val))
+
+    def stale_patch():
+        from biogeme.configuration import Configuration
+
+        def setter(self, the_list):   # the setter no longer refreshes the stored identifier
+            first = not hasattr(self, 'string_id')
+            self._Configuration__selections = sorted(the_list)
+            if first:
+                self.string_id = self.get_string_id()
+
+        Configuration.selections = property(Configuration.selections.fget, setter)
+
+    status, val = rt.forked(catreplay.replay_confobj, (conf_struct, csels, clist[:400], 0, stale_patch))
+    chk.control('(a) Configuration.selections setter patched not to refresh the stored identifier',
+                _reported(status, val, 'confobj:str') and _reported(status, val, 'confobj:equality'), _note(status, val))
+
+    # ---- (b) the configuration expected after re-selecting A replaced by the one the individual move left
+    bl = list(bpaths[st.label].values())
+    again = next(p for p in bl if p['steps'][2]['op'] == 'setconf' and p['steps'][1]['op'] == 'setindex')
+    mut = copy.deepcopy(again)
+    mut['steps'][2]['cfg'] = list(mut['steps'][1]['cfg'])
+    status, val = rt.forked(catreplay.replay_paths, (st, tab, [mut], 0, 0, None, 1))
+    chk.control('(b) configuration expected after re-selecting A replaced by the individually moved one', _reported(status, val, 'state:setconf'),
+                _note(status, val))
+
+    def cache_patch():
+        from biogeme.controller import CentralController
+
+        orig = CentralController.set_configuration
+
+        def cached(self, configuration):   # "already there": trusts what the central controller applied last
+            if getattr(self, '_applied', None) == configuration.get_string_id():
+                return
+            orig(self, configuration)
+            self._applied = configuration.get_string_id()
+
+        CentralController.set_configuration = cached
+
+    status, val = rt.forked(catreplay.replay_paths, (st, tab, bl[:600], 0, 0, cache_patch, 1))
+    chk.control('(b) CentralController.set_configuration patched to skip a configuration it applied last (blind to individual moves)',
+                _reported(status, val, 'state:setconf') and _reported(status, val, 'operator:'), _note(status, val))
+
+    # ---- (c) the verdict of the specification on a misordered structure replaced by "accepted"
+    mis = next(s_ for s_ in order_structs if 'misordered' in s_.features)
+    tmut = copy.deepcopy(tables[mis.label])
+    tmut.meta['verdict'] = 'accepted'
+    status, val = rt.forked(catreplay.check_order, (mis, tmut, None))
+    chk.control('(c) verdict "refused" of the specification replaced by "accepted" for a misordered structure', _reported(status, val, 'order:'),
+                _note(status, val))
+
+    def set_patch():
+        import biogeme.catalog as bc
+        from biogeme.controller import Controller
+
+        orig = bc.Catalog.__init__
+
+        def init(self, catalog_name, named_expressions, controlled_by=None):   # compares the names as a SET
+            names = [ne.name for ne in named_expressions]
+            if controlled_by is not None and sorted(names) == sorted(controlled_by.specification_names):
+                orig(self, catalog_name, named_expressions, Controller(controlled_by.controller_name, names))
+                self.controlled_by = controlled_by
+            else:
+                orig(self, catalog_name, named_expressions, controlled_by)
+
+        bc.Catalog.__init__ = init
+
+    status, val = rt.forked(catreplay.check_order, (mis, tables[mis.label], set_patch))
+    chk.control('(c) Catalog.__init__ patched to compare the member names as a set (members then taken by position)',
+                _reported(status, val, 'order:accepted:'), _note(status, val))
+
+    # ---- the reporting path: context and call site carry the same keys; a failing iterate step is reported
+    probe = []
+    try:
+        catreplay._mm(probe, 'probe', {}, dict(want=1, got=2, step=3), dict(want=5), want=7, got=2)
+        kept = sorted(probe[0]['detail'].items())
+        ok = kept == sorted({'want': 7, 'got': 2, 'step': 3, 'context.want': 1, 'context.context.want': 5}.items())
+    except Exception as exc:  # noqa: BLE001
+        kept, ok = repr(exc), False
+    chk.control('reporting: a context and the call site both carry `want` / `got` (no value lost, no exception)', ok, str(kept))
+    itp = dict(kind='path', label=st.label, steps=[dict(again['steps'][0]), dict(again['steps'][0], op='iterate', ret=tab.meta['nconf'])])
+    tcut = copy.deepcopy(tab)
+    tcut.ids = tcut.ids[1:]
+    status, val = rt.forked(catreplay.replay_paths, (st, tcut, [itp], 0, 0, None))
+    chk.control('reporting: one identifier removed from the set expected of an iteration step', status == 'ok' and _reported(status, val, 'iterate:visits'),
+                _note(status, val))
 
 
 if __name__ == '__main__':
